@@ -41,4 +41,13 @@ PROPS = {
         'explanation': 'Model of the whole codec validated against Marshal/Unmarshal on generated reflect.StructOf types (wild and in-class), hand-written shapes and the shipped structs (string, value and projected error compared). Proved: integer text round trip for all bases/bit sizes; shipped layouts tied and in the class. The class round-trip theorem (C10_full_statement) is stated and validated by computation on every in-class case of the run; its proof is in progress.',
         'level_text': 'proof (partial): the unbounded class round-trip theorem is stated (C10_full_statement) and tested on every generated in-class case; proved so far are the integer-text round trips and the layout ties; the correspondence ties the full codec model to the implementation',
     },
+    'C14': {
+        'property_files': ['Properties/C14.v'],
+        'targets': ['Properties/C14.vo', 'Schemes/KeyCases.vo'],
+        'trusted': ['modelled: the guard prefix of the ten Key functions in source order (Schemes/Keys.v) and hashutil.Encoding.IndexAnyInvalid through the generated decode tables; the derivations after the guards are abstract',
+                    'limits are the constants generated from /repo on this run (gen_limits), so a consistent change of an exported limit is not an alarm'],
+        'assumptions': ['bcrypt: Eksblowfish is undefined for an empty key, so ($2$, empty password) is outside the domain (DESIGN.md 5.2)',
+                        'sha1: a RandomRounds request is accepted iff the drawn value is >= MinRounds (C15 bounds the draw)'],
+        'explanation': 'Theorems for all arguments: every Key rejects with the typed error of the first failing documented guard carrying the offending value, independently of the derivation (prompt), and accepts exactly the domain; alphabets exact for all 256 bytes. Tie: Key outcome (accept / typed error + value) vs the model with generated limits and vs the guard table over exported constants, on exhaustive salt lengths, every salt position x 256 bytes, cost bounds, password limits, option pools.',
+    },
 }
